@@ -73,17 +73,18 @@ Theorem C16_kron_shape_partial : forall sa sb fa fb m, pos sa -> pos sb ->
   kron A mul sa sb fa fb = Ok m -> vshape m = np_kron_shape sa sb.
 Proof. exact (kron_shape_partial A mul). Qed.
 
-(* diagonal / trace with offset >= 0 and (for trace) a non-empty diagonal, any pair of distinct axes, either sign *)
+(* diagonal / trace: ANY offset (either sign, beyond the extent included: the diagonal is then empty), any pair of
+   distinct axes of either sign; trace needs a non-empty diagonal (the empty case is the remaining finding).
+   These describe the code with the repair fixes/C16_diagonal_offset.diff applied. *)
 Theorem C16_diagonal_spec : forall s f off ax1 ax2 a1 a2 v,
   norm_axis (length s) ax1 = Some a1 -> norm_axis (length s) ax2 = Some a2 ->
-  0 <= off -> 0 <= diag_extent s off a1 a2 ->
   np_diagonal A s f off a1 a2 = Some v ->
   exists m, diagonal A s f off ax1 ax2 = Ok m /\ agrees A m v.
 Proof. exact (diagonal_spec A). Qed.
 
 Theorem C16_trace_spec : forall s f off ax1 ax2 a1 a2 v,
   norm_axis (length s) ax1 = Some a1 -> norm_axis (length s) ax2 = Some a2 ->
-  0 <= off -> 1 <= diag_extent s off a1 a2 ->
+  1 <= np_diag_len s off a1 a2 ->
   np_trace A zero add s f off a1 a2 = Some v ->
   exists m, trace A zero add s f off ax1 ax2 = Ok m /\ agrees A m v.
 Proof. exact (trace_spec A zero add add_assoc add_0_r). Qed.
@@ -111,20 +112,16 @@ Theorem C16_matmul_v1_1d_refuted : exists sa sb,
 Proof. exists [1], [1; 1]. repeat split; try (repeat constructor; lia). Qed.
 Print Assumptions C16_matmul_v1_1d_refuted.
 
-Theorem C16_diagonal_negative_offset_refuted : exists s off,
-  pos s /\ np_diagonal_shape s off 0 1 = Some [1] /\ z_diagonal s (iota s) off 0 1 = Trap.
-Proof. exists [2; 1], (-1). repeat split; try (repeat constructor; lia). Qed.
-Print Assumptions C16_diagonal_negative_offset_refuted.
-
 Theorem C16_trace_empty_refuted : exists s off,
   pos s /\ option_map (@vshape Z) (z_np_trace s (iota s) off 0 1) = Some [] /\ z_trace s (iota s) off 0 1 = Trap.
 Proof. exists [1; 1], 1. repeat split; try (repeat constructor; lia). Qed.
 Print Assumptions C16_trace_empty_refuted.
 
-Theorem C16_diagonal_beyond_refuted : exists s off,
-  pos s /\ np_diagonal_shape s off 0 1 = Some [0] /\ z_diagonal s (iota s) off 0 1 = Trap.
-Proof. exists [1; 1], 2. repeat split; try (repeat constructor; lia). Qed.
-Print Assumptions C16_diagonal_beyond_refuted.
+(* the same for an offset beyond the extent (empty diagonal after clamping) *)
+Theorem C16_trace_empty_beyond_refuted : exists s off,
+  pos s /\ option_map (@vshape Z) (z_np_trace s (iota s) off 0 1) = Some [] /\ z_trace s (iota s) off 0 1 = Trap.
+Proof. exists [2; 3], (-3). repeat split; try (repeat constructor; lia). Qed.
+Print Assumptions C16_trace_empty_beyond_refuted.
 
 (* ---------- non-vacuity ---------- *)
 Example C16_nonvacuous_matmul :
@@ -139,9 +136,12 @@ Example C16_nonvacuous_vecdot_inner :
   /\ option_map (@vshape Z) (z_np_inner [2; 3] [4; 3] (iota [2; 3]) (iota [4; 3])) = Some [2; 4].
 Proof. split; reflexivity. Qed.
 Example C16_nonvacuous_trace :
-  norm_axis 3 (-1) = Some 2%nat /\ norm_axis 3 0 = Some 0%nat /\ diag_extent [2; 3; 3] 1 2 0 = 1
-  /\ option_map (@vshape Z) (z_np_trace [2; 3; 3] (iota [2; 3; 3]) 1 2 0) = Some [3].
-Proof. repeat split; reflexivity. Qed.
+  norm_axis 3 (-1) = Some 2%nat /\ norm_axis 3 0 = Some 0%nat /\ np_diag_len [2; 3; 3] 1 2 0 = 1
+  /\ option_map (@vshape Z) (z_np_trace [2; 3; 3] (iota [2; 3; 3]) 1 2 0) = Some [3]
+  /\ (exists m, z_diagonal [3; 3] (iota [3; 3]) (-1) 0 1 = Ok m /\ vshape m = [2] /\ vat m [0] = 4 /\ vat m [1] = 8)
+  /\ (exists m, z_diagonal [1; 1] (iota [1; 1]) 2 0 1 = Ok m /\ vshape m = [0])
+  /\ (exists m, z_trace [3; 3] (iota [3; 3]) (-1) 0 1 = Ok m /\ vshape m = [] /\ vat m [] = 12).
+Proof. repeat split; try reflexivity; eexists; repeat split; reflexivity. Qed.
 Example C16_nonvacuous_v2_tensordot_kron :
   (exists m, z_matmul_v2 [2; 1; 2; 3] [3; 3; 2] (iota [2; 1; 2; 3]) (iota [3; 3; 2]) = Ok m /\ vshape m = [2; 3; 2; 2]
              /\ vat m [1; 2; 1; 0] = 10 * 13 + 11 * 15 + 12 * 17)
